@@ -883,18 +883,21 @@ static void* reb_simulation_integrate_raw(void* args){
         }
 #endif //OPENGL
 #ifdef SERVER
-        if (r->server_data){
+        // Read once per iteration: the server may be started from another thread during this step,
+        // and the unlock below must be paired with this lock.
+        struct reb_server_data* const server_data_this_step = r->server_data;
+        if (server_data_this_step){
             // Note: Mutex is not FIFO.
             // Allow time for mutex to lock in display.c before it is relocked here.
-            while (r->server_data->need_copy == 1){
+            while (server_data_this_step->need_copy == 1){
                 usleep(10);
             }
 #ifdef _WIN32
-            WaitForSingleObject(r->server_data->mutex, INFINITE);
+            WaitForSingleObject(server_data_this_step->mutex, INFINITE);
 #else // _WIN32
-            pthread_mutex_lock(&(r->server_data->mutex)); 
+            pthread_mutex_lock(&(server_data_this_step->mutex)); 
 #endif // _WIN32
-            r->server_data->mutex_locked_by_integrate = 1;
+            server_data_this_step->mutex_locked_by_integrate = 1;
         }
 #endif //SERVER
         if (r->simulationarchive_filename){ reb_simulationarchive_heartbeat(r);}
@@ -909,13 +912,13 @@ static void* reb_simulation_integrate_raw(void* args){
         }
 #endif //OPENGL
 #ifdef SERVER
-        if (r->server_data){
+        if (server_data_this_step){
 #ifdef _WIN32
-            ReleaseMutex(r->server_data->mutex);
+            ReleaseMutex(server_data_this_step->mutex);
 #else // _WIN32
-            pthread_mutex_unlock(&(r->server_data->mutex));
+            pthread_mutex_unlock(&(server_data_this_step->mutex));
 #endif // _WIN32
-            r->server_data->mutex_locked_by_integrate = 0;
+            server_data_this_step->mutex_locked_by_integrate = 0;
         }
 #endif //SERVER
         if (r->usleep > 0){
